@@ -496,6 +496,16 @@ where
 
         if let Some(idle) = self.idle.get_mut(&token) {
             idle_entry = idle.pop(self.config.idle_timeout);
+
+            // A connection which can be shared stays in the pool, the checkout gets
+            // another handle to it. Otherwise requests arriving before the checkout
+            // is polled would not find it and would open a second connection.
+            if let Some(connection) = idle_entry.as_mut().filter(|c| c.can_share()) {
+                if let Some(shared) = connection.reuse() {
+                    idle.push(std::mem::replace(connection, shared));
+                }
+            }
+
             empty = idle.is_empty();
         }
 
